@@ -168,6 +168,17 @@ CHECKS = {
         "runtime oracle: vendor encoders + independent evaluator/overlaps vs the real vendor-fix cascade",
         "4/C05",
     ),
+    "C16": (
+        "exploration",
+        "A pool of ~90 closed API calls is executed (a) each alone in a fresh interpreter (baseline digests), (b) in shuffled "
+        "histories with repetitions in one interpreter with deep snapshots of all module-level tables (periodic table, bond "
+        "types, convention dictionaries, registries, unit constants, patterns) around every call, (c) from 2/4/8/16 threads on "
+        "distinct files under a sys.monitoring LINE callback that yields the GIL inside iodata code; every digest (returned object, "
+        "written bytes, exception type + message) must equal its baseline and the tables must never change. Schedules are sampled: "
+        "the evidence records line events, yields, distinct yield points and observed context switches.",
+        "differential digests vs fresh-process baseline + module-table snapshots + yield-injection scheduler",
+        "4/C16",
+    ),
 }
 
 NOT_YET = "check not built yet (work in progress; see DESIGN.md section 5b)"
